@@ -15,4 +15,4 @@ Definition run_clone_from (m1 m2 a b c : Z) : result (Z * Z * bool * Z) :=
   let y' := clone_from_asis y x in
   rbind (i_residue y') (fun res => rbind (i_eq y' x) (fun e =>
   rbind (i_reduce r1 c) (fun z => rbind (i_add y' z) (fun s => rbind (i_residue s) (fun sv =>
-  Ok (modulus_asis y', res, e, sv))))))))).
+  Ok (modulus_asis y', res, e, sv)))))))))).
